@@ -359,6 +359,8 @@ def to_iter(it, v):
         return ItRange(v.fields[0], v.fields[1])
     if isinstance(v, Agg) and v.kind == "adt:RangeFrom":
         return ItRangeFrom(v.fields[0], 8)
+    if isinstance(v, Agg) and v.kind == "adt:RangeInclusive":
+        return ItRange(v.fields[0], add_vals(v.fields[1], 1))
     if isinstance(v, Ref):
         t = v.get()
         if isinstance(t, SVec):
@@ -753,6 +755,12 @@ def register_all(M):
     def m_index(it, args, callee):
         base = deref(args[0]) if isinstance(args[0], Ref) else args[0]
         i = args[1]
+        if isinstance(i, Agg) and i.kind == "adt:RangeFull":
+            if isinstance(base, (Str, SString)):
+                return Str(base.elems)
+            return slice_of(base)
+        if isinstance(i, FnItem):
+            raise Unsupported("index with %r" % (i,))
         if isinstance(base, (Str, SString)):
             el = tuple(base.elems)
             if isinstance(i, Agg) and i.kind in ("adt:Range", "adt:RangeFrom", "adt:RangeTo"):
@@ -1027,47 +1035,47 @@ def register_all(M):
 
     @reg("Iterator::rev")
     def m_rev(it, args, callee):
-        return ItRev(args[0])
+        return ItRev(to_iter(it, args[0]))
 
     @reg("Iterator::enumerate")
     def m_enumerate(it, args, callee):
-        return ItEnumerate(args[0])
+        return ItEnumerate(to_iter(it, args[0]))
 
     @reg("Iterator::skip")
     def m_skip(it, args, callee):
-        return ItSkip(args[0], as_int(it, args[1], 0, 64, "skip count"))
+        return ItSkip(to_iter(it, args[0]), as_int(it, args[1], 0, 64, "skip count"))
 
     @reg("Iterator::take")
     def m_take(it, args, callee):
-        return ItTake(args[0], as_int(it, args[1], 0, 64, "take count"))
+        return ItTake(to_iter(it, args[0]), as_int(it, args[1], 0, 64, "take count"))
 
     @reg("Iterator::map")
     def m_map(it, args, callee):
-        return ItMap(args[0], args[1])
+        return ItMap(to_iter(it, args[0]), args[1])
 
     @reg("Iterator::filter")
     def m_filter(it, args, callee):
-        return ItFilter(args[0], args[1])
+        return ItFilter(to_iter(it, args[0]), args[1])
 
     @reg("Iterator::zip")
     def m_zip(it, args, callee):
-        return ItZip(args[0], to_iter(it, args[1]))
+        return ItZip(to_iter(it, args[0]), to_iter(it, args[1]))
 
     @reg("Iterator::flat_map")
     def m_flat_map(it, args, callee):
-        return ItFlatMap(args[0], args[1])
+        return ItFlatMap(to_iter(it, args[0]), args[1])
 
     @reg("Iterator::count")
     def m_count(it, args, callee):
         n = 0
-        src = args[0]
+        src = to_iter(it, args[0])
         while src.next(it).variant == 1:
             n += 1
         return n
 
     @reg("Iterator::last")
     def m_last(it, args, callee):
-        src = args[0]
+        src = to_iter(it, args[0])
         last = none()
         while True:
             o = src.next(it)
@@ -1086,7 +1094,7 @@ def register_all(M):
 
     @reg("Iterator::fold")
     def m_fold(it, args, callee):
-        src, acc, f = args[0], args[1], args[2]
+        src, acc, f = to_iter(it, args[0]), args[1], args[2]
         while True:
             o = src.next(it)
             if o.variant == 0:
@@ -1115,9 +1123,24 @@ def register_all(M):
                 return some(i)
             i += 1
 
+    @reg("Iterator::max", "Iterator::min")
+    def m_iter_max(it, args, callee):
+        src = to_iter(it, args[0])
+        best = None
+        is_max = callee.strip().split("::")[-1].startswith("max")
+        while True:
+            o = src.next(it)
+            if o.variant == 0:
+                return some(best) if best is not None else none()
+            v = o.fields[0]
+            if best is None:
+                best = v
+            else:
+                best = m_min_max(it, [best, v], "Ord::max" if is_max else "Ord::min")
+
     @reg("Iterator::collect")
     def m_collect(it, args, callee):
-        src = args[0]
+        src = to_iter(it, args[0])
         m = re.search(r"collect::<(.*)>$", callee.strip())
         target = base_type(m.group(1)) if m else ""
         out = []
@@ -1146,7 +1169,15 @@ def register_all(M):
             o = src.next(it)
             if o.variant == 0:
                 return UNIT
-            dst.items.append(o.fields[0])
+            v = o.fields[0]
+            if isinstance(dst, SString):
+                dv = deref(v)
+                if isinstance(dv, (Str, SString)):
+                    dst.elems.extend(dv.elems)
+                else:
+                    dst.elems.append(dv)
+            else:
+                dst.items.append(v)
 
     # ----------------------------------------------------------------- Vec / slices
     @reg("Vec::new", "Vec::with_capacity", "Vec::default")
@@ -1436,7 +1467,18 @@ def register_all(M):
     def m_map_retain(it, args, callee):
         m = deref(args[0])
         if m.oracle is not None:
-            raise Unsupported("retain on an oracle-backed map")
+            # entries not yet consulted are filtered when they are first asked for
+            inner, f = m.oracle, args[1]
+
+            def filtered(it2, m2, key):
+                v = inner(it2, m2, key)
+                if v is None:
+                    return None
+                cell = [tuple(key), v]
+                if it2.st.branch(it2.call_value(f, [Ref([SString(key)], 0), Ref(cell, 1, True)])):
+                    return cell[1]
+                return None
+            m.oracle = filtered
         keep = []
         for e in m.entries:
             if it.st.branch(it.call_value(args[1], [Ref([SString(e[0])], 0), Ref(e, 1, True)])):
